@@ -106,8 +106,8 @@ def interp (pt idx : Nat) : List Tok → St → St × Flow
   | .unknown :: ts, s => interp pt idx ts { s with unknown := true }
 
 /-- `hl = GetHandlerList(pt); retVal[,res] = hl.FilterXxx(..); switch retVal {..}` -/
-def atPoint (ch : Nat → List Elem) (pt : Nat) (s : St) : St × Flow × ChainRes :=
-  let r := runChain 0 (ch pt)
+def atPoint (ρ : Nat → ChainRes) (pt : Nat) (s : St) : St × Flow × ChainRes :=
+  let r := ρ pt
   let s := { s with calls := s.calls ++ r.calls.map fun i => (pt, i) }
   match armFor pt r.ret with
   | none => (s, .next, r)
@@ -123,11 +123,11 @@ def sendResponse (s : St) : St :=
     | none => s
 
 /-- label `response_got` (HandleReadResponse), falling through to `send_response` -/
-def responseGot (ch : Nat → List Elem) (s : St) : St :=
+def responseGot (ρ : Nat → ChainRes) (s : St) : St :=
   match s.res with
   | none => { s with unknown := true }   -- Go: nil dereference at `defer res.Body.Close()`
   | some _ =>
-    let (s, fl, _) := atPoint ch pReadResponse s
+    let (s, fl, _) := atPoint ρ pReadResponse s
     match fl with
     | .ret => s
     | .toSend => sendResponse s
@@ -135,31 +135,31 @@ def responseGot (ch : Nat → List Elem) (s : St) : St :=
     | .toGot => { s with unknown := true }
 
 /-- one of HandleBeforeLocation / HandleFoundProduct / HandleAfterLocation, then `k` -/
-def reqPoint (ch : Nat → List Elem) (pt : Nat) (s : St) (k : St → St) : St :=
-  let r := runChain 0 (ch pt)
+def reqPoint (ρ : Nat → ChainRes) (pt : Nat) (s : St) (k : St → St) : St :=
+  let r := ρ pt
   let s := { s with res := r.res.map (Resp.module pt) }
-  let (s, fl, _) := atPoint ch pt s
+  let (s, fl, _) := atPoint ρ pt s
   match fl with
   | .ret => s
   | .toSend => sendResponse s
-  | .toGot => responseGot ch s
+  | .toGot => responseGot ρ s
   | .next => k s
 
 /-- clusterInvoke with a healthy backend: HandleForward, then one RoundTrip -/
-def clusterInvoke (ch : Nat → List Elem) (s : St) : St :=
-  let (s, fl, _) := atPoint ch pForward { s with action := 0, res := none }
+def clusterInvoke (ρ : Nat → ChainRes) (s : St) : St :=
+  let (s, fl, _) := atPoint ρ pForward { s with action := 0, res := none }
   match fl with
   | .next => { s with backend := s.backend + 1, res := some .backend }
   | .ret => s
   | _ => { s with unknown := true }
 
 /-- ReverseProxy.ServeHTTP for a request whose product and cluster are found -/
-def serveHTTP (ch : Nat → List Elem) : St :=
-  reqPoint ch pBeforeLocation {} fun s =>
-  reqPoint ch pFoundProduct s fun s =>
-  reqPoint ch pAfterLocation s fun s =>
-    let s := clusterInvoke ch s
-    responseGot ch { s with res := some (s.res.getD .internalErr) }
+def serveHTTP (ρ : Nat → ChainRes) : St :=
+  reqPoint ρ pBeforeLocation {} fun s =>
+  reqPoint ρ pFoundProduct s fun s =>
+  reqPoint ρ pAfterLocation s fun s =>
+    let s := clusterInvoke ρ s
+    responseGot ρ { s with res := some (s.res.getD .internalErr) }
 
 structure ReqOut where
   out : Option Resp
@@ -170,10 +170,10 @@ structure ReqOut where
   deriving DecidableEq, Repr
 
 /-- conn.serveRequest: ServeHTTP, finishRequest / prepareForCloseConn, FinishReq -/
-def serveRequest (ch : Nat → List Elem) : ReqOut :=
-  let s := serveHTTP ch
+def serveRequest (ρ : Nat → ChainRes) : ReqOut :=
+  let s := serveHTTP ρ
   let out := if s.action == aCloseDirectly then none else some (s.wrote.getD .default200)
-  let (s2, _, _) := atPoint ch pRequestFinish { s with action := 0 }
+  let (s2, _, _) := atPoint ρ pRequestFinish { s with action := 0 }
   { out := out, keep := s.action == aKeepAlive && s2.action == aKeepAlive, backend := s2.backend,
     calls := s2.calls, unknown := s2.unknown }
 
@@ -185,23 +185,27 @@ structure ConnOut where
   unknown : Bool
   deriving DecidableEq, Repr
 
-def serveLoop (ch : Nat → List Elem) : Nat → ConnOut → ConnOut
+def serveLoop (ρ : Nat → ChainRes) : Nat → ConnOut → ConnOut
   | 0, acc => acc
   | k + 1, acc =>
-    let r := serveRequest ch
+    let r := serveRequest ρ
     let acc := { acc with calls := acc.calls ++ r.calls, outs := acc.outs ++ r.out.toList,
                           backend := acc.backend + r.backend, served := acc.served + 1,
                           unknown := acc.unknown || r.unknown }
-    if r.keep then serveLoop ch k acc else acc
+    if r.keep then serveLoop ρ k acc else acc
 
 /-- conn.serve on a plain (non-TLS) connection carrying `n` pipelined requests, then EOF -/
-def serveConn (n : Nat) (ch : Nat → List Elem) : ConnOut :=
-  let (s, fl, _) := atPoint ch pAccept {}
+def serveConnR (n : Nat) (ρ : Nat → ChainRes) : ConnOut :=
+  let (s, fl, _) := atPoint ρ pAccept {}
   let acc : ConnOut := ⟨s.calls, [], 0, 0, s.unknown⟩
-  let acc := if fl == .ret then acc else serveLoop ch n acc
+  let acc := if fl == .ret then acc else serveLoop ρ n acc
   -- deferred c.finish(): HandleFinish, verdict discarded
-  let z := runChain 0 (ch pFinish)
+  let z := ρ pFinish
   { acc with calls := acc.calls ++ z.calls.map fun i => (pFinish, i) }
+
+/-- the connection with filter chains `ch pt` registered at the callback points: every point sees its chain only
+    through the result of `HandlerList.FilterXxx` -/
+def serveConn (n : Nat) (ch : Nat → List Elem) : ConnOut := serveConnR n fun pt => runChain 0 (ch pt)
 
 /-! ### specification -/
 
@@ -242,16 +246,21 @@ def path : List Nat := [pAccept, pBeforeLocation, pFoundProduct, pAfterLocation,
 
 /-- the first applicable non-GoOn verdict on the path: (point, verdict, index of the stopping filter, did it
     return a response) -/
-def firstStop (ch : Nat → List Elem) : List Nat → Option (Nat × Nat × Nat × Bool)
+def stops (pt v : Nat) : Bool := v != vGoOn && applicable pt v
+
+def firstStopR (σ : Nat → ChainRes) : List Nat → Option (Nat × Nat × Nat × Option Nat)
   | [] => none
   | pt :: rest =>
-    let r := specChain (ch pt)
-    if r.ret != vGoOn && applicable pt r.ret then some (pt, r.ret, r.calls.length - 1, r.res.isSome)
-    else firstStop ch rest
+    let r := σ pt
+    if stops pt r.ret then some (pt, r.ret, r.calls.getLast?.getD 0, r.res)
+    else firstStopR σ rest
 
-def quietAt (ch : Nat → List Elem) (pt : Nat) : Bool :=
-  let r := specChain (ch pt)
-  !(r.ret != vGoOn && applicable pt r.ret)
+def firstStop (ch : Nat → List Elem) (l : List Nat) : Option (Nat × Nat × Nat × Option Nat) :=
+  firstStopR (fun pt => specChain (ch pt)) l
+
+def quietAtR (σ : Nat → ChainRes) (pt : Nat) : Bool := !stops pt (σ pt).ret
+
+def quietAt (ch : Nat → List Elem) (pt : Nat) : Bool := quietAtR (fun pt => specChain (ch pt)) pt
 
 /-- bytes of one request of the harness: `GET /r<i> HTTP/1.1\r\nHost: example.org\r\n\r\n` -/
 def reqBytes : Nat := 39
@@ -259,14 +268,16 @@ def reqBytes : Nat := 39
 /-- The documented reaction (docs/en_us/development/module/bfe_callback.md: Finish = send response, then close;
     Redirect = redirect directly; Response = send response; Close = close without sending response), judged on
     what the client saw (`outs`), the number of backend contacts and the client bytes never read. -/
-def judge (n : Nat) (ch : Nat → List Elem) (outs : List Resp) (backend unread : Nat) : Option String :=
+def judgeR (n : Nat) (σ : Nat → ChainRes) (outs : List Resp) (backend unread : Nat) : Option String :=
   if n == 0 then
     (if outs.isEmpty && backend == 0 then none else some "output-without-request")
   else
-  match firstStop ch path with
+  match firstStopR σ path with
   | none =>
     if outs.length == n && unread == 0 then none else some "quiet-not-served"
-  | some (pt, v, idx, hasRes) =>
+  | some (pt, v, idx, res) =>
+    let hasRes := res.isSome
+    let resp := Resp.module pt (res.getD 0)
     let closedAfterFirst := unread == reqBytes * (n - 1)
     let preForward := pt == pBeforeLocation || pt == pFoundProduct || pt == pAfterLocation
     if pt == pAccept then
@@ -282,7 +293,7 @@ def judge (n : Nat) (ch : Nat → List Elem) (outs : List Resp) (backend unread 
     else if v == vFinish then
       if !(outs.length == 1 && closedAfterFirst) then some "finish-no-reply-or-no-close"
       else if (preForward || pt == pForward) && backend != 0 then some "finish-backend-contacted"
-      else if preForward && hasRes && quietAt ch pReadResponse && outs != [.module pt idx] then some "finish-drops-response"
+      else if preForward && hasRes && quietAtR σ pReadResponse && outs != [resp] then some "finish-drops-response"
       else if pt == pReadResponse && outs != [.backend] then some "finish-drops-response"
       else none
     else if v == vRedirect then
@@ -294,8 +305,11 @@ def judge (n : Nat) (ch : Nat → List Elem) (outs : List Resp) (backend unread 
     else
       -- Response at BeforeLocation / FoundProduct / AfterLocation
       if backend != 0 then some "response-backend-contacted"
-      else if quietAt ch pReadResponse && outs.head? != some (.module pt idx) then some "response-not-sent"
+      else if quietAtR σ pReadResponse && outs.head? != some resp then some "response-not-sent"
       else none
+
+def judge (n : Nat) (ch : Nat → List Elem) (outs : List Resp) (backend unread : Nat) : Option String :=
+  judgeR n (fun pt => specChain (ch pt)) outs backend unread
 
 /-- one filter returning `v` (with a response object iff `r`) at point `pt`, nothing registered elsewhere -/
 def single (pt v : Nat) (r : Bool) : Nat → List Elem := fun q => if q == pt then [.f v r] else []
